@@ -74,6 +74,18 @@ def table(g: Any) -> bytes:
     return k.tobytes() + lo.tobytes() + up.tobytes()
 
 
+def as_iterable(sim: Sim, items: list):
+    """The API takes any Iterable[Coalition]: hand it a list, a tuple, a generator or a map object."""
+    kind = sim.choose(4, "iterable-kind")
+    if kind == 0:
+        return list(items)
+    if kind == 1:
+        return tuple(items)
+    if kind == 2:
+        return (x for x in items)
+    return map(lambda x: x, items)
+
+
 def check_handle(sim: Sim, h: Handle, clause_prefix: str = "C17") -> None:
     g, n = h.g, h.n
     N = 2 ** n
@@ -117,14 +129,14 @@ def check_handle(sim: Sim, h: Handle, clause_prefix: str = "C17") -> None:
     # subset getters
     ks = sorted(h.known)
     sub = [i for i in ks if sim.flip(1, 2, "getsub")] or ks[:1]
-    vals = np.array(g.get_values(games.coalitions(sub)), dtype=np.float64)
+    vals = np.array(g.get_values(as_iterable(sim, games.coalitions(sub))), dtype=np.float64)
     if not np.array_equal(vals, np.array([h.known[i] for i in sub])):
         sim.fail(f"{clause_prefix}.get_values_subset_wrong", {**ctx, "subset": sub, "got": vals.tolist()})
     unk = [i for i in range(N) if i not in h.known]
     if unk:
         bad = sub + [unk[sim.choose(len(unk), "unk-pick")]]
         try:
-            g.get_values(games.coalitions(bad))
+            g.get_values(as_iterable(sim, games.coalitions(bad)))
             sim.fail(f"{clause_prefix}.unknown_value_returned_as_value", {**ctx, "via": "get_values(subset)", "subset": bad})
         except ValueError:
             pass
@@ -133,6 +145,23 @@ def check_handle(sim: Sim, h: Handle, clause_prefix: str = "C17") -> None:
             sim.fail(f"{clause_prefix}.unknown_value_returned_as_value", {**ctx, "via": "get_values()"})
         except ValueError:
             pass
+        # the other subset getters, fed lists, tuples, generators and map objects alike
+        probe_ids = sub + [unk[sim.choose(len(unk), "unk-pick2")]]
+        got_known = np.array(g.are_values_known(as_iterable(sim, games.coalitions(probe_ids))))
+        if got_known.tolist() != [i in h.known for i in probe_ids]:
+            sim.fail(f"{clause_prefix}.known_set_differs_from_model", {**ctx, "via": "are_values_known(subset)", "subset": probe_ids})
+        kvs = np.array(g.get_known_values(as_iterable(sim, games.coalitions(probe_ids))), dtype=np.float64)
+        for i, x in zip(probe_ids, kvs):
+            if (i in h.known and x != h.known[i]) or (i not in h.known and not np.isnan(x)):
+                sim.fail(f"{clause_prefix}.unknown_value_returned_as_value",
+                         {**ctx, "via": "get_known_values(subset)", "subset": probe_ids, "got": kvs.tolist()})
+        lbs = np.array(g.get_lower_bounds(as_iterable(sim, games.coalitions(sub))), dtype=np.float64)
+        ubs = np.array(g.get_upper_bounds(as_iterable(sim, games.coalitions(sub))), dtype=np.float64)
+        ivs = np.array(g.get_intervals(as_iterable(sim, games.coalitions(sub))), dtype=np.float64)
+        want = np.array([h.known[i] for i in sub])
+        if not (np.array_equal(lbs, want) and np.array_equal(ubs, want) and ivs.shape == (len(sub), 2)
+                and np.array_equal(ivs[:, 0], want) and np.array_equal(ivs[:, 1], want)):
+            sim.fail(f"{clause_prefix}.known_coalition_value_or_bounds_wrong", {**ctx, "via": "subset bound getters", "subset": sub})
     elif not np.array_equal(np.array(g.get_values()), np.array([h.known[i] for i in range(N)])):
         sim.fail(f"{clause_prefix}.get_values_subset_wrong", {**ctx, "subset": "all"})
     if bool(g.full) != (not unk):
@@ -206,7 +235,7 @@ def run(sim: Sim) -> None:
                 ids = sim.subset(list(range(N)), "ids", 1, 3) or [N - 1]
                 vals = [value(sim) for _ in ids]
                 sim.op("bulk_set", hi, ids)
-                h.g.set_values(np.array(vals, dtype=np.float64), games.coalitions(ids))
+                h.g.set_values(np.array(vals, dtype=np.float64), as_iterable(sim, games.coalitions(ids)))
                 for i, v in zip(ids, vals):
                     h.known[i] = v
             elif kind == "set_all":
@@ -221,7 +250,7 @@ def run(sim: Sim) -> None:
                 if had_bounds:
                     sim.probe("reset_after_bounds")
                 if ids or sim.flip(1, 2, "reset-empty"):
-                    h.g.set_known_values(vals, games.coalitions(ids))
+                    h.g.set_known_values(as_iterable(sim, vals), as_iterable(sim, games.coalitions(ids)))
                     h.known = {}
                     for i, v in zip(ids, vals):
                         h.known[i] = v
@@ -240,7 +269,7 @@ def run(sim: Sim) -> None:
                     ids = sim.subset(list(range(N)), "ids", 1, 2) or [N - 1]
                     vals = [value(sim) for _ in ids]
                     sim.op(kind, hi, ids)
-                    setter(np.array(vals, dtype=np.float64), games.coalitions(ids))
+                    setter(np.array(vals, dtype=np.float64), as_iterable(sim, games.coalitions(ids)))
                 if any(i in h.known for i in ids):
                     sim.probe("bulk_bounds_overlapping_known")
                 for i, v in zip(ids, vals):
